@@ -105,6 +105,48 @@ def step (st : Unit) (j : Json) : Unit × Json :=
         pure (okJson (Json.mkObj [("probes", cxArr3J out),
                                   ("diff", floatToJson (diffIntensity out)),
                                   ("modeint", realRowJ (out.map energy))]))
+    | "probe_history" =>
+        -- {"w":[bits], "stack":[img], "steps":[{"M":bits,"ramps":[img]}]}: the stack after every set_initial_probe
+        let w ← realRow (← field j "w")
+        let stack ← cxArr3 (← field j "stack")
+        let steps ← (← arrField j "steps").toList.mapM fun st => do
+          let m ← floatOfJson (← field st "M")
+          let r ← cxArr3 (← field st "ramps")
+          pure (m, r)
+        let init : ProbeState Float := { weights := w, stack := stack }
+        let (_, outs) := steps.foldl (fun (acc : ProbeState Float × List Json) step =>
+          let s' := setInitialProbe step.1 step.2 acc.1
+          (s', acc.2 ++ [Json.mkObj [("stack", cxArr3J s'.stack), ("w", realRowJ s'.weights),
+                                     ("diff", floatToJson (diffIntensity s'.stack))]])) (init, [])
+        let fin := runProbeHistory init steps
+        pure (okJson (Json.mkObj [("steps", Json.arr outs.toArray), ("w", realRowJ fin.weights)]))
+    | "cons_history" =>
+        -- {"allowed":[k], "init":[[k,v]], "ops":[{"op":"add","k":k,"v":v} | {"op":"set","items":[[k,v]]}]}
+        let allowed ← (← arrField j "allowed").toList.mapM (·.getStr?)
+        let pairs := fun (a : Json) => do
+          (← a.getArr?).toList.mapM fun it => do
+            let pr ← it.getArr?
+            if pr.size != 2 then throw "pair" else
+            pure ((← pr[0]!.getStr?), pr[1]!)
+        let init : CDict Json ← pairs (← field j "init")
+        let dictJ := fun (d : CDict Json) => Json.arr (d.map fun (k, v) => Json.arr #[Json.str k, v]).toArray
+        let ops := (← arrField j "ops").toList
+        let (_, outs) ← ops.foldlM (fun (acc : CDict Json × List Json) o => do
+          let kind ← strField o "op"
+          match kind with
+          | "add" =>
+              let k ← strField o "k"
+              let v ← field o "v"
+              match addConstraint allowed acc.1 k v with
+              | .ok d' => pure (d', acc.2 ++ [Json.mkObj [("r", Json.str "ok"), ("d", dictJ d')]])
+              | .error _ => pure (acc.1, acc.2 ++ [Json.mkObj [("r", Json.str "KeyError"), ("d", dictJ acc.1)]])
+          | "set" =>
+              let items ← pairs (← field o "items")
+              let (d', e) := setConstraints allowed acc.1 items
+              pure (d', acc.2 ++ [Json.mkObj [("r", Json.str (match e with | none => "ok" | some _ => "KeyError")),
+                                              ("d", dictJ d')]])
+          | _ => throw s!"op {kind}") (init, [])
+        pure (okJson (Json.arr outs.toArray))
     | "norm_weights" =>
         let w ← realRow (← field j "w")
         pure (okJson (Json.mkObj [("w", realRowJ (normWeights w))]))
